@@ -80,11 +80,13 @@ def run(ctx: Ctx):
     col.ob("G16", "S1", f"{W('accumulate')}::no-other-writes-to-statistics", not others,
            f"`{u(others[0]) if others else ''}` overwrites an accumulated statistic", rel, others[0].lineno if others else acc.line)
     # the terms: frames counted, sum and sum of squares over the same flattened layout (axis 1 = everything but `dim`)
-    terms = {s: u(updates[s][0][0].value) for s in STATS if updates.get(s)}
-    xdefs = [d for d in rd.defs if d.name == "x" and d.kind == "assign"]
-    layout = u(xdefs[0].value) if len(xdefs) == 1 else None
-    col.ob("G12", "S1", f"{W('accumulate')}::terms", terms == {"count": "x.shape[1]", "sum": "x.sum(1)", "sumsq": "x.square().sum(1)"}
-           and layout == "x.transpose(0, self.dim).unsqueeze(-1).flatten(1)",
+    from sa.inline import Inliner
+    inl_a = Inliner(acc.node, rd, keep=set(alias))
+    xp = acc.params[1].name
+    LAY = f"{xp}.transpose(0, self.dim).unsqueeze(-1).flatten(1)"
+    terms = {s: inl_a.text(updates[s][0][0].value) for s in STATS if updates.get(s)}
+    layout = LAY if all(LAY in t for t in terms.values()) else None
+    col.ob("G12", "S1", f"{W('accumulate')}::terms", terms == {"count": f"{LAY}.shape[1]", "sum": f"{LAY}.sum(1)", "sumsq": f"{LAY}.square().sum(1)"},
            f"the accumulated terms are {terms} over the layout `{layout}`; expected the number of frames, the sum and the "
            f"sum of squares over axis 1 of x.transpose(0, dim)...flatten(1)", rel, acc.line, sample=terms)
     # ---- store: formulas -------------------------------------------------------------------------------------------
@@ -101,9 +103,15 @@ def run(ctx: Ctx):
             mean_def = n
         if isinstance(n, ast.Assign) and isinstance(n.value, ast.BinOp) and isinstance(n.value.op, ast.Sub) and "square" in u(n.value):
             var_def = n
-    okmean = mean_def is not None and nz.expr_str(mean_def.value) == "((SUM)/(COUNT))"
-    mname = [u(t) for t in mean_def.targets if isinstance(t, ast.Name)] if mean_def is not None else []
-    okvar = var_def is not None and mname and nz.expr_str(var_def.value).replace(mname[0], "MEAN") == "((SUMSQ)/(COUNT)) + -MEAN.square()"
+    inl_s = Inliner(store.node, rds, keep=set(alias_s))
+    okmean = mean_def is not None and nz.expr_str(inl_s.expand(mean_def.value)) == "((SUM)/(COUNT))"
+    # var = sumsq / count - M.square() with M the mean (by name or written out)
+    okvar = False
+    if var_def is not None:
+        vv = var_def.value
+        sq = vv.right
+        if isinstance(sq, ast.Call) and isinstance(sq.func, ast.Attribute) and sq.func.attr == "square" and not sq.args:
+            okvar = nz.expr_str(inl_s.expand(vv.left)) == "((SUMSQ)/(COUNT))" and nz.expr_str(inl_s.expand(sq.func.value)) == "((SUM)/(COUNT))"
     col.ob("G12", "S1", f"{W('store')}::mean=sum/count", okmean,
            f"mean is `{u(mean_def.value) if mean_def is not None else None}`", rel, store.line)
     col.ob("G12", "S1", f"{W('store')}::var=sumsq/count-mean^2", bool(okvar),
@@ -334,6 +342,8 @@ def _store_threshold(ctx: Ctx):
                 if o is None:
                     continue
                 op, _, k = o
+                from sa.inline import Inliner as _InlT
+                k = _InlT(node, rd).expand(k)  # `min_count = 2 if bessel else 1` (folded by the specialisation) is looked through
                 kv = k.value if isinstance(k, ast.Constant) else None
                 if op == "lt" and isinstance(kv, int):
                     ths.append(kv)
